@@ -568,4 +568,59 @@ Section Crash.
           cbn [fst l_mem mem_after m_h] in Hh. lia.
       + apply recovered_as_of_equiv; exact E.
   Qed.
+
+  (** * Any number of crashes *)
+  Lemma equiv_consistent l' l : equiv l' l -> consistent l -> consistent l'.
+  Proof.
+    intros (Hm & Hb & Hs & _ & Hf) C.
+    rewrite Hm, (c_fpos _ _ C) in Hf. cbn [file_agree] in Hf. destruct Hf as (_ & Hl & _).
+    constructor; rewrite ?Hm, ?Hb, ?Hs; try apply C. lia.
+  Qed.
+
+  Notation run_hist := (run_hist hc hempty shh exec hdr_ok).
+
+  (** Which blocks a history leaves applied: every added block, and each crashed block or not. *)
+  Inductive kept : list hevent -> list blk -> Prop :=
+  | K_nil : kept [] []
+  | K_add b h bs : kept h bs -> kept (HAdd b :: h) (b :: bs)
+  | K_crash_new b c j h bs : kept h bs -> kept (HCrash b c j :: h) (b :: bs)
+  | K_crash_old b c j h bs : kept h bs -> kept (HCrash b c j :: h) bs.
+
+  Lemma recover_history h : forall la lb,
+    consistent la -> consistent lb -> equiv la lb ->
+    chain_bound la (length h) -> Forall wf_blk (map hblk h) ->
+    exists lf bs, run_hist la h = Ok lf /\ kept h bs /\ equiv lf (run lb bs).
+  Proof.
+    induction h as [|e r IH]; intros la lb Ca Cb E B W.
+    - exists la, []. split; [reflexivity|]. split; [constructor|exact E].
+    - cbn [map] in W. inversion W as [|? ? Wb Wr]; subst.
+      unfold chain_bound in B. cbn [length] in B.
+      assert (Hmh : m_h (l_mem la) = m_h (l_mem lb)) by (destruct E as [Hm _]; rewrite Hm; reflexivity).
+      assert (Ba : bound la) by (unfold bound; lia).
+      assert (Bb : bound lb) by (unfold bound; lia).
+      destruct (add_block_equiv hc hempty shh exec hdr_ok hc_len la lb (hblk e) E) as [Eo El].
+      destruct (add_block_consistent lb (hblk e) Cb Bb Wb) as [Cb' Hb'].
+      destruct e as [b|b c j]; cbn [hblk] in *.
+      + (* the block is added *)
+        destruct (add_block_consistent la b Ca Ba Wb) as [Ca' Ha'].
+        destruct (IH _ _ Ca' Cb' El) as (lf & bs & Hr & Hk & Ef); [|exact Wr|].
+        { unfold chain_bound. destruct Ha' as [Ha'|[_ Ha']]; rewrite Ha'; lia. }
+        exists lf, (b :: bs). split; [exact Hr|]. split; [constructor; exact Hk|exact Ef].
+      + (* the process dies while the block is added, and the directory is reopened *)
+        destruct (recover_one la b c j Ca Ba Wb) as (dk & l' & Hc & Hre & Hcase).
+        cbn [Recovery.run_hist]. rewrite Hc, Hre.
+        destruct Hcase as [E'|[Hacc E']].
+        * assert (C' : consistent l') by (apply (equiv_consistent l' la E' Ca)).
+          assert (E'' : equiv l' lb) by (apply (equiv_trans l' la lb E' E)).
+          destruct (IH _ _ C' Cb E'') as (lf & bs & Hr & Hk & Ef); [|exact Wr|].
+          { unfold chain_bound. destruct E' as [Hm _]. rewrite Hm. lia. }
+          exists lf, bs. split; [exact Hr|]. split; [apply K_crash_old; exact Hk|exact Ef].
+        * destruct (add_block_consistent la b Ca Ba Wb) as [Ca' Ha'].
+          assert (C' : consistent l') by (apply (equiv_consistent l' _ E' Ca')).
+          assert (E'' : equiv l' (fst (add_block lb b))) by (apply (equiv_trans l' _ _ E' El)).
+          destruct (IH _ _ C' Cb' E'') as (lf & bs & Hr & Hk & Ef); [|exact Wr|].
+          { unfold chain_bound. destruct E' as [Hm _]. rewrite Hm.
+            destruct Ha' as [Ha'|[_ Ha']]; rewrite Ha'; lia. }
+          exists lf, (b :: bs). split; [exact Hr|]. split; [apply K_crash_new; exact Hk|exact Ef].
+  Qed.
 End Crash.
